@@ -23,7 +23,7 @@ ASSUMPTIONS = [
     "a convexity error is accepted iff some syntactic absolute-term group has net coefficient <= 0 in lhs - rhs",
 ]
 BOUNDS = {"quick": {"depth": "<=2", "variables": "<=3", "symbolic numerals": "<=4"}, "thorough": {"depth": "<=3", "variables": "<=4", "symbolic numerals": "<=5"}}
-OPTS = {"quick": {"tier_budget_s": 220, "max_paths": 400, "job_budget_s": 40, "witness_rate": 0.3, "query_timeout_ms": 8000}, "thorough": {"tier_budget_s": 2400, "max_paths": 3000, "job_budget_s": 200, "query_timeout_ms": 20000}}
+OPTS = {"quick": {"tier_budget_s": 220, "max_paths": 400, "job_budget_s": 40, "witness_rate": 0.3, "query_timeout_ms": 8000, "witness_bound": 64, "witness_min_abs": 0.015625}, "thorough": {"tier_budget_s": 2400, "max_paths": 3000, "job_budget_s": 200, "query_timeout_ms": 20000, "witness_bound": 64, "witness_min_abs": 0.015625}}
 REACH = {"quick": ["OK", "CONVEX", "SYNTAX", "prod:leq", "prod:geq", "prod:eq", "prod:abs", "prod:group", "prod:paren", "prod:arith", "prod:chain", "spelling", "mutant", "sequence"]}
 
 VARS = ["x", "y", "z", "w"]
@@ -637,7 +637,9 @@ def run(ctx, job):
                     break
             if not placed:
                 groups.append(((form, const), [coef]))
-        pair_ok.append(z3.And(*[sum(cs, z3.RealVal(0)) > 0 for _, cs in groups]) if groups else z3.BoolVal(True))
+        # replay: pacti adds the coefficients in floats; a net coefficient within 1e-6 of zero may fall on either side
+        slack = z3.RealVal(0) if ctx.mode == "sym" else E.q(1e-6)
+        pair_ok.append(z3.And(*[sum(cs, z3.RealVal(0)) > slack for _, cs in groups]) if groups else z3.BoolVal(True))
     ctx.obligation("convexity-error-only-for-nonconvex-use", z3.And(*pair_ok), info=text)
     return {"cls": cls}
 
